@@ -89,7 +89,7 @@ def _particles(rng, shape, box, dtype, coord, nthread, npartition, nrandom, offs
 
 def gen(rng, tier):
     dtype = rng.choice(['f4', 'f4', 'f8'])
-    n1d = rng.choice([rng.randrange(1, 13), rng.randrange(1, 25), rng.randrange(4, 65)])
+    n1d = rng.choice([rng.randrange(1, 13), rng.randrange(1, 25), rng.randrange(4, 65)] + ([rng.randrange(65, 129)] if tier == 'thorough' else []))
     coord = rng.choice([0, 0, 1, 2])
     shape = [rng.choice([n1d, rng.randrange(2, 9), rng.choice([12, 24, 48, 64])]) for _ in range(3)]
     shape[coord] = n1d
@@ -99,7 +99,7 @@ def gen(rng, tier):
     npartition = None if rng.random() < 0.5 else rng.randrange(1, n1d + 1)
     box = rng.choice([1.0, 1.0, 32.0, 2000.0, 123.456])
     offset = rng.choice(['0', 'half'])
-    pos = _particles(rng, shape, box, dtype, coord, nthread, npartition, rng.randrange(0, 30), offset)
+    pos = _particles(rng, shape, box, dtype, coord, nthread, npartition, rng.randrange(0, 150 if tier == 'thorough' else 30), offset)
     if shape[0] * shape[1] * shape[2] > 4096 and len(pos) > 60:
         pos = rng.sample(pos, 60)
     weights = None if rng.random() < 0.5 else [float(_f(dtype)(rng.choice([1.0, 0.5, 2.0, rng.random()]))) for _ in pos]
